@@ -255,6 +255,8 @@ def run(ctx):
 
     directed_fault_scenarios(ctx, shim)
     vanished_root_scenarios(ctx)
+    from . import midrun_rt
+    midrun_rt.persistent_failing_transform_cache_check(ctx, ctx.pick(8, 80))
 
     # model-level hook (engine G): failing every read of one inode in the extracted model, which Props_C15.v is about, gives
     # the partition of the model and of the implementation on the tree without that inode
